@@ -557,6 +557,15 @@ func (fx *FnExec) applyContract(fr *frame, st *State, fc *FuncContract, callee *
 			// the clause speaks about calls made INSIDE the callee; it is meaningless in the caller's trace
 			continue
 		}
+		if len(fc.Afters) > 0 {
+			caps := map[string]bool{}
+			for _, a := range fc.Afters {
+				caps[a.Name] = true
+			}
+			if mentionsIdent(en.Expr, caps) {
+				continue // values captured inside the callee's body
+			}
+		}
 		g := fx.evalCallClause(post, en, "ensures of "+key)
 		fx.assume(st, g)
 	}
